@@ -15,7 +15,7 @@ def NOT_REPRODUCED(msg=''):
 
 from fractions import Fraction as F
 from math import comb
-p = Path(Line((-1+0j), 0j), Line(0j, (-1-1j)), CubicBezier((-1-1j), 0j, 0j, (-1+0j)))
+p = Path(Line(-1j, 0j), QuadraticBezier(0j, 0j, -1j))
 def pc(ps):
     n = len(ps) - 1; out = []
     for j in range(n + 1):
@@ -33,7 +33,7 @@ def green(path):
             for j, dj in enumerate(c):
                 if j: tot += ci[0] * dj[1] * j / (i + j)
     return float(tot)
-sx, sy, z0 = 2.0, 3.0, (3-2j)
+sx, sy, z0 = 2.0, 3.0, (-1+0j)
 M = np.array([[2, 1, 3], [0, 3, -1], [0, 0, 1]], dtype=float)
 a = p.area(); want = green(p)
 tol = 1e-7 * (1 + abs(want))
